@@ -226,6 +226,10 @@ func (e *Env) Do(op Op) *Res {
 		if c.Thread == tid {
 			if _, seen := e.CallScope[c]; !seen {
 				e.CallScope[c] = scopeName
+				if c.Via == "child" {
+					// made for a child scope that a constructor of this operation created itself
+					e.CallScope[c] = scopeName + "/child"
+				}
 			}
 		}
 	}
